@@ -220,6 +220,18 @@ func (e *Engine) repairVariants(fn *types.Func, fc *FuncContract) []contractVari
 	if len(news) == 0 {
 		return vs
 	}
+	// a new local that starts a three-clause loop at E and (presumably) counts down: X may have become E - W
+	countFrom := map[string]string{}
+	ast.Inspect(fi.decl.Body, func(n ast.Node) bool {
+		if f, ok := n.(*ast.ForStmt); ok && f.Init != nil {
+			if as, ok := f.Init.(*ast.AssignStmt); ok && as.Tok.String() == ":=" && len(as.Lhs) == 1 && len(as.Rhs) == 1 {
+				if id, ok := as.Lhs[0].(*ast.Ident); ok && seenNew[id.Name] {
+					countFrom[id.Name] = exprText(as.Rhs[0])
+				}
+			}
+		}
+		return true
+	})
 	var texts []string
 	invariantTexts(fc.Spec, &texts)
 	idents := map[string]bool{}
@@ -246,6 +258,15 @@ func (e *Engine) repairVariants(fn *types.Func, fc *FuncContract) []contractVari
 			cp := *fc
 			cp.Spec = sp
 			vs = append(vs, contractVariant{&cp, fmt.Sprintf("loop invariants restated over the new local %s in place of %s", w.name, x), ""})
+			if e, ok := countFrom[w.name]; ok {
+				repl := "(" + e + " - " + w.name + ")"
+				sp2, err := copySpec(fc.Spec, func(t string) string { return substIdentOutsideOld(t, x, repl) })
+				if err == nil {
+					cp2 := *fc
+					cp2.Spec = sp2
+					vs = append(vs, contractVariant{&cp2, fmt.Sprintf("loop invariants restated with %s replaced by %s (a counter counting down from %s)", x, repl, e), ""})
+				}
+			}
 		}
 	}
 	return vs
